@@ -1,2 +1,79 @@
-(* C07 - placeholder while the proofs are being written *)
-From P9 Require Import Model.Serve.
+(* C07 - flush cancels the request, silences its reply and frees the tag safely.
+   Same model and notation as C06.v.  [PFlushAck v]: the Rflush reply; v is (ghost) the request the
+   flush removed from the tag table.  [handed tr f]: frame f was passed to the writer's WriteFcall. *)
+From Coq Require Import List NArith Bool.
+From stdpp Require Import gmap.
+From P9 Require Import Model.Serve Proofs.ServeProofs Proofs.ServeProofs2 Proofs.ServeProofs3 Proofs.ServeProofs4 Proofs.ServeWitness.
+Import ListNotations.
+Open Scope N_scope.
+
+(* 0. what the loop does with Tflush(old) when old is outstanding: holder cancelled and removed, Rflush queued *)
+Theorem C07_flush_known : forall s rid tag old ro,
+  pc s = Main -> rd s = RHold rid tag (KFlush old) -> tags s !! tag = None -> tags s !! old = Some ro ->
+  exists s' o, step R s EArrive = Some (s', o) /\
+             pc s' = SendImm {| f_rid := rid; f_tag := tag; f_pl := PFlushAck ro |} /\
+             tags s' = delete old (tags s) /\
+             (forall h, hs s !! ro = Some h -> exists h', hs s' !! ro = Some h' /\ h_canc h' = true).
+Proof. exact flush_known. Qed.
+Print Assumptions C07_flush_known.
+
+(* 1. cancel before ack: whenever a step hands an Rflush to the conn, the flushed request's context was
+      cancelled strictly earlier *)
+Theorem C07_cancel_then_ack : forall evs s tr, run R init evs = Some (s, tr) ->
+  forall e s' o f v, step R s e = Some (s', o) -> In (OTake f) o -> f_pl f = PFlushAck v -> In (OCancel v) tr.
+Proof. exact ev_cancel_then_ack. Qed.
+Print Assumptions C07_cancel_then_ack.
+
+(* 2. silence: once the Rflush has been handed to the conn, for EVERY later event list (the handler
+      returning before, during or after, honouring the cancellation or not, the tag being reused or not)
+      no frame answering the flushed request is handed to the conn *)
+Theorem C07_silence : forall evs s tr, run R init evs = Some (s, tr) ->
+  forall f v, handed tr f -> f_pl f = PFlushAck v ->
+  forall later s' tr', run R s later = Some (s', tr') ->
+  forall f', In (OTake f') tr' \/ In (OLost f') tr' -> f_rid f' <> v.
+Proof. exact ev_silence. Qed.
+Print Assumptions C07_silence.
+
+(* 3. safe reuse: after the acknowledgement the flushed request holds no tag (so a request reusing its
+      tag is dispatched as a new request, C06_dispatch_on_arrival), and every later frame is the own reply
+      of the request it answers, never of the flushed one *)
+Theorem C07_reuse : forall evs s tr, run R init evs = Some (s, tr) ->
+  forall f v, handed tr f -> f_pl f = PFlushAck v ->
+  (forall t, tags s !! t <> Some v) /\
+  forall later s' tr', run R s later = Some (s', tr') ->
+  forall f', In (OTake f') tr' -> f_rid f' <> v /\ own (tr ++ tr') f'.
+Proof. exact ev_reuse. Qed.
+Print Assumptions C07_reuse.
+
+(* 4. a flush naming a tag that is not outstanding: Rerror "unknown tag" queued, nothing else changes;
+      that it is sent exactly once is C06_reply_at_most_once + C06_reply_exists *)
+Theorem C07_unknown : forall s rid tag old,
+  pc s = Main -> rd s = RHold rid tag (KFlush old) -> tags s !! tag = None -> tags s !! old = None ->
+  exists s', step R s EArrive = Some (s', [ORecv rid tag (KFlush old)]) /\
+             pc s' = SendImm {| f_rid := rid; f_tag := tag; f_pl := PErr err_unknowntag |} /\
+             tags s' = tags s /\ hs s' = hs s.
+Proof. exact flush_unknown. Qed.
+Print Assumptions C07_unknown.
+
+(* non-vacuity: a run in which a running request is flushed and the Rflush handed to the conn; its
+   continuation in which the tag is reused and the flushed handler returns late, and the new request
+   receives its own reply *)
+Example C07_example_flush : exists s tr, run R init run_flush = Some (s, tr) /\ handed tr ack /\ In (OCancel 0) tr /\
+  tags s !! 5 = None.
+Proof. exact ex_run_flush. Qed.
+Print Assumptions C07_example_flush.
+
+Example C07_example_reuse : exists s tr, run R init (run_flush ++ run_reuse_late) = Some (s, tr) /\ settled s /\
+  In (OFrame {| f_rid := 2; f_tag := 5; f_pl := PErr [98; 111; 111; 109] |}) tr /\
+  forall f, In (OTake f) tr -> f_rid f <> 0.
+Proof. exact ex_reuse_repaired. Qed.
+Print Assumptions C07_example_reuse.
+
+(* the code as found (completions matched by tag only, D5) refuted 2 and 3: on the same schedule the
+   flushed request's result is written after the Rflush and request 2 is never answered *)
+Example C07_legacy_refuted : exists s tr, run legacy init (run_flush ++ run_reuse_late_legacy) = Some (s, tr) /\
+  handed tr ack /\ In (OFrame {| f_rid := 0; f_tag := 5; f_pl := PMsg [121; 65] |}) tr /\
+  quiescent legacy s = true /\ pc s = Main /\ closed s = false /\ ctxd s = false /\ all_gone s = true /\
+  forall f, In (OTake f) tr -> f_rid f <> 2.
+Proof. exact legacy_silence_refuted. Qed.
+Print Assumptions C07_legacy_refuted.
